@@ -345,7 +345,7 @@ PROPS["C12"] = dict(
                "faults (C20) are not in the table.",
     quick=[("asan", 16, 40), ("plain", 8, 40)],
     thorough=[("asan", 16, 1500), ("plain", 16, 4000), ("memcheck", 8, 3, {"budget": 900})],
-    floors={"quick": {"empty_after_resize_0": 20, "iterations_with_a_refused_get_in_the_body": 20, "empty_after_draining": 20, "distinct_faults_in_table": 300, "sequence_objects_faulted": 100, "map_objects_faulted": 100,
+    floors={"quick": {"empty_after_resize_0": 20, "failures_handled_inside_an_enclosing_try": 100, "iterations_with_a_refused_get_in_the_body": 20, "empty_after_draining": 20, "distinct_faults_in_table": 300, "sequence_objects_faulted": 100, "map_objects_faulted": 100,
                       "string_objects_faulted": 50, "range_objects_faulted": 50, "scalar_objects_faulted": 1}},
     exhaustive=False,
     rule="evaluation = one fault (object kind, operation, invalid argument, size) executed with all oracles; the "
@@ -449,7 +449,7 @@ PROPS["C08"] = dict(
                       "dispatches_to_missing_class": 500, "concurrent_cold_start_trials": 200,
                       "random_lookup_histories": 50, "oversized_type_attempts": 1, "terminal_reproducer_runs": 1,
                       "near_name_classes_declared": 200, "undeclared_near_name_lookups": 10000,
-                      "fallback_types": 500, "same_name_type_pairs": 100, "concurrent_warm_method_lookups": 1000000, "fallback_calls_to_empty_member": 3000, "fallback_calls_to_filled_member": 1500}},
+                      "fallback_types": 500, "same_name_type_pairs": 100, "cold_type_objects_used_as_receivers": 1000, "concurrent_warm_method_lookups": 1000000, "fallback_calls_to_empty_member": 3000, "fallback_calls_to_filled_member": 1500}},
     rule="case = a run-time type with a random instance list and all its dispatcher calls, or a random history of "
          "200-600 lookups over all known types (cold or warm), or 10-40 concurrent cold-start trials; the built-in "
          "matrix is enumerated completely by shard 0; distinct = hash of the case description; non-trivial = every "
